@@ -18,6 +18,8 @@
   ends only when the bound holds or the victim pointer has walked all three queues; the driver checks the flag as well.
 -/
 import OtterVerif.Impl.Policy
+import OtterVerif.Conc.PolicySkeleton
+import OtterVerif.Gen.Skeleton
 import OtterVerif.Proofs.PolicyFuel
 
 namespace OtterVerif.Props.C04
@@ -166,5 +168,11 @@ theorem c04_oversized_not_retained {S : List Nat} {p : Policy} (h : Reach S p) (
 def p0 : Policy := { nodes := [{ id := 1, key := 5, weight := 2 }], window := [1], weightedSize := 2, windowWeightedSize := 2, maximum := 10, windowMaximum := 1 }
 example : dqContains p0 (p0.node 1).qt 1 = true := by decide
 example : (makeDead p0 1).weightedSize = 0 ∧ (makeDead p0 1).window = [] := by decide
+
+/-! ### The eviction decision has the shape the model follows (skeletons regenerated from policy.go on every run) -/
+theorem skeleton_policy_evictFromMain : Gen.Skeleton.policy_evictFromMain = Conc.PolicySkeleton.policy_evictFromMain := by decide
+theorem skeleton_policy_evictFromWindow : Gen.Skeleton.policy_evictFromWindow = Conc.PolicySkeleton.policy_evictFromWindow := by decide
+theorem skeleton_policy_evictNodes : Gen.Skeleton.policy_evictNodes = Conc.PolicySkeleton.policy_evictNodes := by decide
+theorem skeleton_policy_admit : Gen.Skeleton.policy_admit = Conc.PolicySkeleton.policy_admit := by decide
 
 end OtterVerif.Props.C04
